@@ -234,7 +234,8 @@ void profile_hist(Gen &g, bool invalid_heavy, bool copy_heavy) {
 void profile_resolve(Gen &g) {
 	Plan &p = g.p; Rng &r = g.r;
 	bool fileobj = r.chance(1, 3) && g.ok("resolve:fileobj");
-	p.lps.push_back(fileobj ? g.gen_lp(0, 9, 9, 3, 4) : g.gen_lp(0, g.longrun ? 9 : 6, g.longrun ? 9 : 6));
+	bool pure_add = fileobj && r.chance(2, 3);
+	p.lps.push_back(pure_add ? g.gen_lp(0, 9, 16, 3, 8) : fileobj ? g.gen_lp(0, 9, 9, 3, 4) : g.gen_lp(0, g.longrun ? 9 : 6, g.longrun ? 9 : 6));
 	Op cr = g.gen_create(0, 1); if (cr.s("how") == "empty") g.set(cr, "how", "load"); p.ops.push_back(cr);
 	// one plan in three works on an object that came out of a file reader (the readers build problems their own way - with a row-wise copy of
 	// the matrix next to the column-wise one - and every edit has to keep such an object consistent too)
@@ -252,7 +253,20 @@ void profile_resolve(Gen &g) {
 	int rounds = g.longrun ? r.range(10, 40) : r.range(2, 8);
 	auto direct = [&]() { Op o = g.gen_solve(0, r.chance(1, 8) ? "exact" : r.chance(1, 2) ? "primal" : "dual"); g.seti(o, "o", oi); o.a.erase("warm"); return o; };
 	p.ops.push_back(direct());
+	// column generation / cutting planes on a model file: the first rounds of half of the file-object plans only add columns (or only rows), so
+	// that whatever the reader built next to the column matrix is still the reader's when the simplex runs again, warm, on the grown problem
+	bool pure_cols = r.chance(2, 3); int pure_rounds = pure_add ? r.range(1, 3) : 0;
 	for (int k = 0; k < rounds; k++) {
+		if (k < pure_rounds) {
+			int kk = r.range(1, 3);
+			for (int t = 0; t < kk; t++) { Op e; for (int q = 0; q < 80; q++) { e = g.gen_edit(0); std::string w = e.s("what"); if (pure_cols ? (w == "addcol" || w == "addcols") : (w == "addrow" || w == "addrows")) break; } g.seti(e, "o", oi);
+				/* a generated column is one that prices out: its cost has the sign of the objective's direction more often than not */
+				if (pure_cols && r.chance(2, 3)) { std::string c = p.lps[0].objsense > 0 ? "-" + g.pos() : g.pos(); if (e.s("what") == "addcol") { g.set(e, "obj", c); g.set(e, "lo", "0"); g.set(e, "up", "inf"); } else { g.set(e, "obj0", c); g.set(e, "lo0", "0"); g.set(e, "up0", "inf"); } }
+				p.ops.push_back(e); }
+			p.ops.push_back(direct());
+			if (r.chance(1, 4) && g.ok("tableau")) { Op t = g.mk(0, "tableau"); g.seti(t, "o", oi); p.ops.push_back(t); }
+			continue;
+		}
 		int ne = r.chance(2, 3) ? 1 : r.range(2, 3);
 		// the one edit after which a solution may legitimately survive is a row deletion (basic rows only): make it the first thing after a
 		// solve often enough that every kind of row (ranged at either end, equality, basic, non-basic) gets deleted with a live cache
